@@ -368,6 +368,16 @@ func runReuse(p prog) {
 	// watchdog: Accept has no timeout, so an incarnation that is never offered would show as a bare
 	// deadlock; name it (with the faults) and stop the muxers so that everything returns
 	finished := false
+	aborted := false // set by the watchdog: what fails afterwards is a consequence of its stop
+	gfail := fail
+	fail := func(format string, a ...any) {
+		mu.Lock()
+		ab := aborted
+		mu.Unlock()
+		if !ab {
+			gfail(format, a...)
+		}
+	}
 	vrt.Go(func() {
 		vrt.Sleep(180 * time.Second)
 		mu.Lock()
@@ -377,6 +387,9 @@ func runReuse(p prog) {
 			return
 		}
 		fail("after 180 virtual seconds the acceptor has finished %v of the two incarnations: a remotely opened tube was never offered to it (or never delivered / closed) (faults %v)", d, g.faultList())
+		mu.Lock()
+		aborted = true
+		mu.Unlock()
 		g.m.Client.Stop()
 		g.m.Server.Stop()
 	})
